@@ -89,11 +89,6 @@ def classify(run, m, c, e, line, o, sw, known_short=None):
         full = sw["rc"] == "OK" and sw["der"] == c["der"]
     else:
         known_short = None
-    if not full and syn == "xer" and e["label"] in ("xer", "cxer") and c.get("enc_unescaped"):
-        # the text comes from the library's own encoder, which writes '&' '<' '>' of a BMPString / UniversalString as
-        # they are: not an XER encoding of the value (the hand-written documents of the same value are)
-        run.known_finding("C05-xer-bmpstring-encoder-no-escape", line)
-        excused = True
     if not full and not excused:
         # a valid encoding that the one-shot decoder does not take back: C03/C01 territory; recorded, and the
         # chunked runs must still agree with the one-shot
@@ -122,7 +117,8 @@ def sweep_items(run, m, items, rng, quick, name):
     lines = []
     for (cc, e, known) in items:
         n = len(e["hex"]) // 2
-        maxpts = (400 if n <= 3000 else 80) if quick else (3000 if n <= 6000 else 300)
+        # (thorough: the base corpus sweeps up to 3000 points per encoding; here there are ten times as many encodings)
+        maxpts = (400 if n <= 3000 else 80) if quick else (600 if n <= 6000 else 200)
         lines.append("sweep %s %s %s %d %d" % (cc["tn"], e["syn"], e["hex"], maxpts, rng.below(2**31)))
     o = run_mod(run, m, lines, name, timeout=1500)
     res, feeds = [], []
@@ -212,7 +208,7 @@ def ext_part(run, model, xmods, rng, tier):
             xer = [bytes.fromhex(r.split()[1]) if r.startswith("OK ") else None for r in o[2 * i:2 * i + 2]]
             tree = X.ext_tree(c["x"])
             try:
-                bers = U.ber_variants(tree, bytes.fromhex(c["der"]), rng, nrand=1 if quick else 3)
+                bers = U.ber_variants(tree, bytes.fromhex(c["der"]), rng, nrand=1 if quick else 2)
             except (ValueError, AssertionError, IndexError):
                 bers = [("der", bytes.fromhex(c["der"]), None)]
                 run.count("ext_ber_variants_unavailable")
@@ -377,6 +373,19 @@ def entref_tie(run, model, sm, scases, rng, quick):
             run.count("splits", sw["pts"])
             for (s_, rc, total, dereq) in sw["badsplit"]:
                 run.violation("oracle:split(xer)", dict(rp, what="fed as [0,%d)+[%d,%d): %s consumed %d value-equal=%s; one-shot: %s consumed %d" % (s_, s_, sw["n"], rc, total, dereq, sw["rc"], sw["consumed"])))
+
+
+def nul_probe(run, sm):
+    """a reference to the code point 0 in a text body ("&#0;", "&#;", "&#x;"): the library calls abort() (assert(val > 0));
+    the extracted reader has XAbort there.  Each document goes to a process of its own."""
+    for body in (b"a&#0;b", b"&#;", b"&#x;", b"&#x000;"):
+        line = "feed SU xer %s 1*" % (b"<SU>" + body + b"</SU>").hex()
+        rc, out, err = run_lines(sm["exe"], [line], env=SAN_ENV)
+        run.case(line)
+        if rc != 0 and "val > 0" in err:
+            run.known_finding("C05-xer-entref-nul-abort", line)
+        elif rc != 0 or len(out) != 1:
+            run.violation("crash:C05-nul", {"what": "moddrv died (rc=%s)" % rc, "command_line": line, "stderr_tail": err[-1500:]})
 
 
 def main(tier):
@@ -638,13 +647,17 @@ def main(tier):
                                                                         "model_type": c["ts"], "value": c["vs"], "command_line": l[:3000], "model": r[:300], "c": "%s %d %s" % (sw["rc"], sw["consumed"], sw["der"][:200])},
                                   no_input=True)
     # ---- second layer: older readers of extensible types; the extracted steps of Rt/ResumeX.v against the C
+    import time as _time
+    t_layer = _time.time()
     try:
         ext_part(run, model, xmods, rng_b, tier)
         if sm.get("exe"):
             skip_tie(run, model, sm, rng_b)
             entref_tie(run, model, sm, scases, rng_s, quick)
+            nul_probe(run, sm)
     except (RuntimeError, BuildError) as e:
         run.violation("build", {"what": str(e)[-2500:]}, no_input=True)
+    run.count("second_layer_ext_and_ties_wall_s", int(_time.time() - t_layer))
     if os.environ.get("C05_DEBUG"):
         for v in run.violations:
             log("DBG %s | %s | %s %s | %s | %s" % (v["kind"], v.get("what", "")[:300], v.get("type"), v.get("variant"), v.get("command_line", "")[:200], v.get("c", "")[:300]))
